@@ -106,7 +106,7 @@ func checkC01(c *Ctx) error {
 	if err != nil {
 		return err
 	}
-	n := c.Pick(350, 24000)
+	n := c.Pick(350, 12000)
 	var units []*probe.Unit
 	for i := 0; i < n; i++ {
 		r := rand.New(rand.NewSource(c.Seed*7919 + int64(i)))
@@ -175,7 +175,7 @@ func checkC01(c *Ctx) error {
 		return err
 	}
 	judgeC01(c, units)
-	cohabitPairs(c, lab, c.Pick(24, 600))
+	cohabitPairs(c, lab, c.Pick(24, 300))
 	// accept/reject must not depend on the mode (shared with C17; cheap to assert here)
 	for i := 0; i+1 < len(units); i += 2 {
 		if units[i].Accepted != units[i+1].Accepted {
